@@ -162,12 +162,19 @@ package workflow
 //@ func (*loopState).countStates
 //@   requires wfloop(l) && held(l.lock) && lockinv(l)
 //
+// Errors are queued for Execute without ever blocking the reporting goroutine (it holds the run lock):
+// the error is in the queue afterwards, or the queue is full - then the run is failing with the twenty
+// errors that are queued already.
+//@ func (*loopState).reportError
+//@   requires l != nil && l.logger != nil && l.recentErrors != nil && err != nil && chcap(l.recentErrors) == 20
+//@   modifies chan l.recentErrors
+//@   ensures [the-error-is-queued-unless-the-queue-was-full] sentnow(l.recentErrors) || chlen(l.recentErrors) >= chcap(l.recentErrors)
 //@ func (*loopState).checkForDeadlocks
 //@   requires wfloop(l) && held(l.lock) && lockinv(l) && wg != nil
 //@   ensures lockinv(l)
-//@   site send#1 assert [no-progress-is-reported-only-when-nothing-can-run] counters.starting == 0 && counters.running == 0 && !hasReadyNodes && !l.outputDone && retries <= 0
+//@   site call reportError#1 assert [no-progress-is-reported-only-when-nothing-can-run] counters.starting == 0 && counters.running == 0 && !hasReadyNodes && !l.outputDone && retries <= 0
 //@   ensures [a-stalled-run-is-reported] callres(countStates, 1, 0).starting == 0 && callres(countStates, 1, 0).running == 0 && \
-//@        !callres(HasReadyNodes, 1, 0) && !l.outputDone && retries <= 0 ==> sentnow(l.recentErrors)
+//@        !callres(HasReadyNodes, 1, 0) && !l.outputDone && retries <= 0 ==> called(reportError, 1) && typeis(callarg(reportError, 1, 1), *ErrNoMorePossibleSteps)
 //
 //@ func (*loopState).checkForDeadlocks$1
 //@   opt goroutine deadlockcheck
